@@ -105,6 +105,26 @@ def run_proofs(report, prop, modules, timeout_ms=None):
         os.makedirs(os.path.dirname(BASELINE), exist_ok=True)
         with open(BASELINE, "w") as fh:
             json.dump(baseline, fh, indent=0, sort_keys=True)
+    # table obligations: contents of module-level dict literals, decided by evaluating the real object
+    import importlib
+    for mod, fns in modules:
+        cm = importlib.import_module(mod)
+        for tag, name, getter, expected in getattr(cm, "TABLES", []):
+            if tag != prop:
+                continue
+            tot += 1
+            try:
+                actual = getter()
+                ok = actual == expected and all(actual[k] is expected[k] or actual[k] == expected[k] for k in expected)
+            except Exception as ex:      # noqa
+                ok, actual = False, f"raised {type(ex).__name__}"
+            if ok:
+                disch += 1
+                samples.append({"obligation": f"{mod}/table[{name}]", "backend": "cpython-eval", "ms": 0})
+            else:
+                report.pending_proof_violations.append(
+                    (f"obligation {mod}/table[{name}] refuted: table contents differ from the specification",
+                     {"obligation": f"table[{name}]", "actual": repr(actual)[:800], "expected": repr(expected)[:800]}))
     cov = report.coverage
     cov["functions_under_contract"] = cov.get("functions_under_contract", []) + funcs
     cov["obligations"] = cov.get("obligations", 0) + tot
